@@ -7,7 +7,7 @@
 (* examined).  Lines are spread over NChunk first-level states so that all *)
 (* workers take part.                                                      *)
 (***************************************************************************)
-EXTENDS QueryRef
+EXTENDS QueryRef, Update
 
 Trace == ndJsonDeserialize("trace.ndjson")
 N == Len(Trace)
@@ -37,8 +37,22 @@ CheckMatch(e, line) ==
                     /\ (ref = e.res \/ Bad(line, "ref", ref, e.res))
                     /\ (ref = impl \/ Bad(line, "impl-vs-ref", ref, impl)))
 
+(* mongokit.Apply: rejection, resulting document (up to $currentDate values) and recorded changes *)
+RecSet(rec) == {<<rec[i][1], rec[i][2]>> : i \in 1..Len(rec)}
+ObsRecSet(rec) == {<<PathOf(rec[i][1]), rec[i][2]>> : i \in 1..Len(rec)}
+RecLike(exp, obs) ==
+  /\ Cardinality(RecSet(exp)) = Cardinality(ObsRecSet(obs))
+  /\ \A x \in RecSet(exp) : \E y \in ObsRecSet(obs) : x[1] = y[1] /\ Like(x[2], y[2])
+CheckApply(e, line) ==
+  LET r == Apply(e.doc, e.upd, e.upsert, e.afs) IN
+  IF r.err # e.res.err THEN Bad(line, "apply-rejection", r.err, e.res.err)
+  ELSE IF r.err THEN TRUE
+  ELSE /\ (Like(r.doc, e.res.doc) \/ Bad(line, "apply-doc", r.doc, e.res.doc))
+       /\ (RecLike(r.rec, e.res.rec) \/ Bad(line, "apply-changes", r.rec, e.res.rec))
+
 CheckCase(e, line) ==
   CASE e.fn = "match" -> CheckMatch(e, line)
+    [] e.fn = "apply" -> CheckApply(e, line)
     [] OTHER -> Bad(line, "unknown fn", e.fn, "")
 
 Checked == l # 0 => CheckCase(Trace[l], l)
